@@ -70,3 +70,6 @@ fn k_basis_two_handles() {
     assert!(cb.get_value().to_bits() == b0.to_bits());
     kani::cover!(true);
 }
+
+/// read access to a handle's bounds for the harness modules of other files (fields are private to basis.rs)
+pub(crate) fn bounds(b: &StandardBasis) -> (f64, f64) { (b.min, b.max) }
